@@ -212,7 +212,13 @@ func (p *pxArr) ApplySlice(loc []int, step []int, vals data.NDFloat64) {
 	nd := len(loc)
 	idx := make([]int, len(vs))
 	var offs []int
-	for {
+	empty := false
+	for _, e := range vs {
+		if e == 0 {
+			empty = true // (a block without elements addresses nothing: Lag with a lag of 0 writes back a state row of width 0)
+		}
+	}
+	for !empty {
 		l := append([]int{}, loc...)
 		for k := range vs {
 			ax := nd - len(vs) + k
@@ -235,6 +241,9 @@ func (p *pxArr) ApplySlice(loc []int, step []int, vals data.NDFloat64) {
 		if k < 0 {
 			break
 		}
+	}
+	if os.Getenv("PX_DEBUG") != "" {
+		fmt.Fprintf(os.Stderr, "PXDEBUG ApplySlice %s loc=%v step=%v valsShape=%v offs=%v viewShape=%v\n", p.root.name, loc, step, vs, offs, p.real.Shape())
 	}
 	p.root.log.add(p.root.name, "w", offs)
 	p.real.ApplySlice(loc, step, rv)
